@@ -20,8 +20,8 @@ type NestOpts struct {
 	// NoDeferFuncVar replaces `defer fN()` by `defer func() { fN() }()` in ClosureOnly
 	// programs, where fN is a function value held in a captured variable.
 	NoDeferFuncVar bool
-	MaxFuncs     int // number of functions besides main (default 4)
-	MaxDepth     int // nesting depth of closures (default 3)
+	MaxFuncs       int // number of functions besides main (default 4)
+	MaxDepth       int // nesting depth of closures (default 3)
 }
 
 // Nest is a generated panic/defer/recover/Stop/Fatal program.
@@ -64,12 +64,15 @@ func (g *nestGen) site(ind int) {
 	n := g.nSite
 	var s string
 	switch g.r.Intn(12) {
+	// The values of explicit panics are unique per execution (pkg.Uniq* append a
+	// call counter): the gc runtime prints two adjacent panics with the identical
+	// value as one "[recovered, repanicked]" line, which must stay unambiguous.
 	case 0, 1, 2:
-		s = fmt.Sprintf("panic(\"p%d\")", n)
+		s = fmt.Sprintf("panic(pkg.Uniq(\"p%d\"))", n)
 	case 3:
-		s = fmt.Sprintf("panic(%d)", 1000+n)
+		s = fmt.Sprintf("panic(pkg.UniqInt(%d))", 1000+n)
 	case 4:
-		s = fmt.Sprintf("panic(errors.New(\"e%d\"))", n)
+		s = fmt.Sprintf("panic(pkg.UniqErr(\"e%d\"))", n)
 	case 5:
 		s = fmt.Sprintf("pkg.Got(pkg.Ints[pkg.Zero()+%d])", n+10)
 	case 6:
